@@ -135,6 +135,7 @@ def run_tlc(
             "java",
             "-XX:+UseParallelGC",
             "-Xmx12g",
+            "-Djava.io.tmpdir=" + work,      # TLC leaves an empty tlc-<n> directory per process in the JVM's temp dir
         ]
         if dfs_queue:
             cmd.append("-Dtlc2.tool.queue.IStateQueue=StateDeque")
